@@ -286,7 +286,7 @@ class ClusterProp(props.BaseProp):
     id = "C11"
     run_module = "Run.RunCluster"
     harness_mode = "cluster"
-    quick_n, thorough_n = 260, 5000
+    quick_n, thorough_n = 600, 8000
     shards = 12
     sub_limit = 32
     rule = ("graphs of 1-8 nodes whose names' sort order differs from insertion order: 75% single-edge (directed and "
@@ -527,9 +527,34 @@ class ClusterProp(props.BaseProp):
 
 C11 = props.register(ClusterProp())
 C11.manifest = {
-    "text": "",
-    "note": "",
-    "technique": "Coq proof (counting lemmas over the definitions, subset consistency and refusals of the model) + "
-                 "differential correspondence vs vm_compute model + brute-force definition oracle on the "
+    "text": "Unbounded Coq theorems (axiom-free). About the definitions (any node list, any adjacency): triangles "
+            "through v <= pairs of neighbours, hence 0 <= clustering <= 1; self-loops never count (every definition - "
+            "neighbours, triangles, clustering, transitivity, generalised degree, Lind's square coefficient, Fagiolo's "
+            "directed coefficient - is invariant under changing the diagonal); the per-node triangle counts add up to 3 x "
+            "the number of triangles (double counting over lists). About the faithful model of cluster/*.rs (all graph "
+            "states): multi-edge graphs are refused by triangles / generalized_degree / transitivity / clustering / "
+            "average_clustering and directed graphs by the undirected-only functions (WrongMethod); SUBSET CONSISTENCY for "
+            "triangles, generalized_degree, clustering (both kinds) and square_clustering: restricting node_names to any "
+            "non-empty list returns the full computation's value for exactly those nodes; MODEL = DEFINITION for undirected "
+            "triangles and clustering: for every state passing an executable coherence test (node list duplicate-free, "
+            "neighbour query total, closed, symmetric) triangles(v) is the number of triangles through v and clustering(v) "
+            "= 2 tri/(d(d-1)) as a rational (sort / run-length / HashMap-collect lemmas + double counting). Tied to the "
+            "code on every run: triangles, clustering (unweighted both kinds, and the weighted forms on perfect-cube "
+            "weights where the cube roots are rational and the model exact), average_clustering (count_zeros both ways), "
+            "transitivity, generalized_degree, square_clustering for node_names = None, every non-empty subset (sampled "
+            "above 32), absent names, duplicates, the empty slice; in Coq every model value is also compared with the "
+            "brute-force definition computed from the edge list (flag observation); a Python oracle recomputes every "
+            "definition by brute force on the implementation's output and checks [0,1], subset consistency and refusals.",
+    "note": "Validated per case, not proved unbounded: model = definition for transitivity, generalized_degree, "
+            "square_clustering (Lind) and directed clustering (Fagiolo), the [0,1] range of the directed and square "
+            "coefficients, and that the adjacency the functions read equals the edge list. Weighted forms: modelled (not "
+            "proved) and compared only on weights that are perfect cubes (IEEE cbrt is not modelled; 1e-9 tolerance); "
+            "their definitions are checked by the Python oracle in floats. square_clustering on DIRECTED graphs is only "
+            "required not to panic (its value depends on HashSet iteration order - `u_nbrs.contains(w)` is asymmetric - "
+            "and the property does not fix it; only its key set is compared). Trusted: Coq kernel + vm_compute; "
+            "harness/printers/diff. Axioms: none. Repaired defects: F5 010e156, F19 5b670fd, F6 f1adbb1, F7 b6551f6, F15 "
+            "7384b84.",
+    "technique": "Coq proof (counting lemmas over the definitions, subset consistency / refusals / model=definition of "
+                 "the model) + differential correspondence vs vm_compute model + brute-force definition oracle on the "
                  "implementation's output",
 }
